@@ -64,6 +64,7 @@ type Run struct {
 	rng  *rand.Rand
 	stop bool
 	lastRes StepResult
+	digests []string
 	maxSteps int
 }
 
@@ -208,6 +209,7 @@ func (r *Run) after(st Step, msg sdk.Msg, res StepResult) {
 	sc := &StepCtx{Idx: len(r.hist.Steps) - 1, Step: &r.hist.Steps[len(r.hist.Steps)-1], Msg: msg, Res: &res, Pre: r.pre, Post: post, run: r}
 	r.mon.check(sc)
 	r.pre = post
+	r.digests = append(r.digests, post.Digest)
 	r.lastRes = res
 	if len(r.hist.Steps) >= r.maxSteps {
 		r.stop = true
@@ -245,6 +247,7 @@ func (r *Run) Mod(op ModOp, note string) StepResult {
 func (r *Run) SetModSvcBehaviour(b ModSvcBehaviour) {
 	r.w.modSvcBehaviour = b
 	r.hist.Steps = append(r.hist.Steps, Step{Kind: "modsvc", Behaviour: int(b), Desc: fmt.Sprintf("module service answers in mode %d", b)})
+	r.digests = append(r.digests, r.pre.Digest)
 }
 
 // Finish runs the end-of-history checks.
